@@ -2,17 +2,17 @@
 # tools/confirm_mutant.sh <dir with patch.diff demo_test.go> <demo target dir relative to repo, e.g. ast or .>
 # Confirms in a scratch worktree: patch applies+builds, whole suite passes with it, demo fails with it and passes without.
 set -u
-D="$(cd "$1" && pwd)"; T="${2:-.}"
+D="$(cd "$1" && pwd)"; T="${2:-.}"; FLAGS="${3:-}"   # FLAGS: extra go test flags for the demo (e.g. "-race -run TestX")
 export GOFLAGS=-mod=mod GOPROXY=off GOSUMDB=off GOTOOLCHAIN=local
 W=/tmp/mut/confirm.$$
 git -C /repo worktree add -q --detach $W HEAD || exit 3
 trap 'git -C /repo worktree remove --force $W' EXIT
 cd $W
 cp "$D/demo_test.go" $T/zz_demo_test.go
-go test -vet=off -count=1 ./$T/ > /tmp/cm.$$.a 2>&1; a=$?
+go test -vet=off -count=1 $FLAGS ./$T/ > /tmp/cm.$$.a 2>&1; a=$?
 git apply "$D/patch.diff" || { echo "APPLY-FAIL"; exit 3; }
 go build ./... || { echo "BUILD-FAIL"; exit 3; }
-go test -vet=off -count=1 ./$T/ > /tmp/cm.$$.b 2>&1; b=$?
+go test -vet=off -count=1 $FLAGS ./$T/ > /tmp/cm.$$.b 2>&1; b=$?
 rm $T/zz_demo_test.go
 go test -vet=off -count=1 ./... > /tmp/cm.$$.c 2>&1; c=$?
 echo "demo-without-patch rc=$a (want 0); demo-with-patch rc=$b (want !=0); suite-with-patch rc=$c (want 0)"
